@@ -11,6 +11,7 @@ CONSTANTS
   Modes = {"receptor", "dns"}
   StreamSrcs <- StreamSrcsQuick
   MaxTick = 1
+  KF_LookupMutatesStored = FALSE
   KF_TimeFrozenAtCreation = FALSE
   KF_DigestCachedAcrossCalls = FALSE
   KF_ColonSplit = FALSE
